@@ -162,6 +162,26 @@ Theorem C11_limit : forall evs,
 Proof. exact max_event_length_formula. Qed.
 Print Assumptions C11_limit.
 
+(* The same on a client object that was connected before: after the reset that precedes
+   every connection (reset_conn = state.reset(false)), only THIS connection's 005 lines
+   count, whatever state s0 the earlier connections left behind ... *)
+Theorem C11_limit_reconnect : forall s0 evs,
+  let s := fold_left handle_isupport evs (reset_conn s0) in
+  let P := prefix_estimate (st_opts s) in
+  (forall L, opt_num (st_opts s) k_LINELEN = Some L -> (P < L)%Z ->
+     max_event_length s = (L - 2 - P)%Z) /\
+  (alookup k_LINELEN (st_opts s) = None -> (P < 510)%Z ->
+     max_event_length s = (512 - 2 - P)%Z).
+Proof. exact max_event_length_reconnect. Qed.
+Print Assumptions C11_limit_reconnect.
+
+(* ... and options and both limits are exactly those of a first connection that sees the
+   same lines (also where the guard fails). *)
+Theorem C11_limit_reconnect_fresh : forall s0 evs,
+  same_limits (fold_left handle_isupport evs (reset_conn s0)) (fold_left handle_isupport evs state_init).
+Proof. exact reconnect_as_fresh. Qed.
+Print Assumptions C11_limit_reconnect_fresh.
+
 (* One accepted 005 line, without any guard: the exact new limits. *)
 Theorem C11_limit_step : forall s e, isupport_accepted e ->
   let s' := handle_isupport s e in
